@@ -3,7 +3,7 @@ SPECIFICATION Spec
 CONSTANTS
     EMIT = TRUE
     Tier = "thorough"
-    NMix = 20000
+    NMix = 12000
     FIX_LOGSAFE = TRUE
     FIX_BODY = TRUE
     FIX_TLS13 = TRUE
